@@ -541,11 +541,20 @@ def precedence_probe(ctx):
         shutil.rmtree(d, ignore_errors=True)
 
 
-def in_loops(prog):
+def in_loops(prog, shape=0):
+    """The body statements inside `loop 1 { }` -- directly in the circuit (shape 0), inside a block of the circuit (1),
+    inside a block inside a parallel block (2), or in a loop in a loop (3)."""
     out = []
     for s in prog[1:]:
         if s[0] == "gate" and s[1] not in ("prepare_all", "measure_all"):
-            out.append(("loop", 1, ("sequential_block", s)))
+            lp = ("loop", 1, ("sequential_block", s))
+            if shape == 1:
+                lp = ("sequential_block", lp)
+            elif shape == 2:
+                lp = ("parallel_block", ("sequential_block", lp))
+            elif shape == 3:
+                lp = ("loop", 1, ("sequential_block", lp))
+            out.append(lp)
         else:
             out.append(s)
     return ("circuit",) + tuple(out)
@@ -593,7 +602,9 @@ def shard(ctx):
             tp, tov = c["twin"]
             if route == "builder" and ctx.rng.random() < 0.7:
                 # the statements sit in `loop 1 { ... }`: the builder may then build them before the circuit exists
-                fp, tp = in_loops(fp), in_loops(tp)
+                shape = ctx.rng.randrange(4)
+                fp, tp = in_loops(fp, shape), in_loops(tp, shape)
+                rec.count("builder-route-statements-in-loops:shape-%d" % shape)
             process(ctx, {"fault": c["fault"], "latest": c["latest"], "prog": fp, "ov": c["ov"], "route": route, "bseed": bs})
             process(ctx, {"fault": None, "twin_of": c["fault"].split(":")[0], "prog": tp, "ov": tov, "route": route, "bseed": bs})
         if i == 1:
